@@ -43,6 +43,7 @@ inductive Res (α ρ : Type) where
   | err (c : Code) (r : ρ)
   /-- the model's fuel ran out (proved unreachable) -/
   | fuel
+deriving Repr, DecidableEq
 
 /-- the methods of `trait Read` that the free functions call -/
 structure ReadOps (ρ : Type) where
